@@ -79,6 +79,10 @@ def check_provider(ctx, rep, f):
     for p in falls:
         node = cfg.node[p]
         if node.kind == 'for':
+            it = node.expr
+            if isinstance(it, ast.Call) and ctx.callee_name(f, it) in ('itertools.count', 'count'):
+                rep.holds(RULE + '.provider', f, node.stmt, 'the candidates come from an unbounded counter (itertools.count): the loop never runs out of them')
+                continue
             K = _candidate_count(ctx, f, node.expr)
             atoms = set(ma.get(p, frozenset())) | {a[:4] for a in fx.guard_atoms(p)}
             bounds = [a for a in atoms if a[0] == 'lencmp' and (a[1] in universes or a[1] in alias)]
